@@ -825,9 +825,14 @@ func (vx *Vaxis) handleSequence(seq ansi.Sequence) {
 					log.Error("not enough DSRCPR params")
 					return
 				}
-				vx.chCursorPos <- [2]int{
+				// The requester may have timed out between our load
+				// of reqCursorPos and this send: never wait forever
+				select {
+				case vx.chCursorPos <- [2]int{
 					seq.Parameters[0][0],
 					seq.Parameters[1][0],
+				}:
+				case <-time.After(50 * time.Millisecond):
 				}
 				return
 			}
